@@ -113,6 +113,15 @@ def variant(sc, kind, r):
         idx = int(r.randint(len(v["rows"]) + 1))
         rows = v["rows"][:idx] + [extra] + v["rows"][idx:]
         v["rows"] = sorted(rows, key=lambda x: x["step"])   # stable: keeps file order inside a time
+    elif kind == "add_none":
+        # a release time whose rows release nothing (multiplicity 0), before a later release
+        used = {row["step"] for row in v["rows"]}
+        last = max(used)
+        free = [st for st in range(1, min(last, v["nsteps"])) if st not in used] or [st for st in range(1, v["nsteps"]) if st not in used]
+        if free and not v["continuous"]:
+            extra = copy.deepcopy(v["rows"][0])
+            extra["key"] = 3000; extra["mult"] = 0; extra["step"] = free[0]
+            v["rows"] = sorted(v["rows"] + [extra], key=lambda x: x["step"])
     elif kind == "spare":
         killed_keys = {}
     elif kind == "shift":
@@ -175,7 +184,7 @@ def run(ctx: Ctx):
     use_repo()
     r = np.random.RandomState(ctx.seed + 41)
     nbase = 150 if ctx.thorough else 24
-    kinds = ["drop", "drop_first", "permute", "add", "spare", "shift", "repeat"]
+    kinds = ["drop", "drop_first", "permute", "add", "spare", "shift", "repeat", "add_none"]
     jobs, meta = [], []
     for b in range(nbase):
         base = make_base(ctx.seed * 100000 + 7000 + b)
@@ -225,6 +234,12 @@ def run(ctx: Ctx):
                 k = next(i for i in range(max(len(a), len(c))) if i >= len(a) or i >= len(c) or a[i] != c[i])
                 bad = dict(particle=dict(release_row=key[0], copy=key[1]), record=k, base=a[k] if k < len(a) else None, variant=c[k] if k < len(c) else None)
                 break
+        if bad is None:
+            # a particle of both set-ups that the base run wrote must be written by the variant too
+            lost = [key for key in pid_map(sc) if key in tb and key not in tv and kind != "spare" and dth_b.get(key) == dth_v.get(key)]
+            if lost:
+                bad = dict(particle=dict(release_row=lost[0][0], copy=lost[0][1]), record=0, base=tb[lost[0]][0], variant=None,
+                           what="the particle is in the base output and missing from the variant's")
         if bad:
             ctx.violation("failing-input", "pair", dict(base=scen.brief(base), variant=kind, variant_rows=sc["rows"], variant_kill=sc["kill"], shift=sc.get("_shift", 0)),
                           dict(bad, theorem="Ladim.C14.particle_independent / subset_permutation_invariant / time_shift_invariant / deterministic"),
